@@ -106,4 +106,22 @@ pub fn families(ex: &Ex) {
     }
     ex.rep.merge(l);
     let _ = gen::kinds;
+    // nesting: every word over the header<->counter-signature edges pumped n times, nested
+    // recipients, nested arrays / maps / tags in extras (crosses any nesting limit the decoder has:
+    // what decodes must re-encode to something that decodes to the same value)
+    let nmax = ex.pick(20usize, 40, 140);
+    ex.bound("c07.nesting", "n_max", json!(nmax));
+    let mut names = crate::spaces::c01::family_names(false);
+    names.retain(|n| n.starts_with("depth:") || n.starts_with("recipients:") || n.starts_with("nest:"));
+    par_partitions(ex.rep, names, |name, l| {
+        for n in 1..=nmax {
+            if let Some((eps, bytes)) = crate::spaces::c01::family(name, n) {
+                l.state(n as u64);
+                l.count("c07.nesting.cases");
+                for (ty, entry) in eps.iter().take(6) {
+                    ex.decode(l, "c07.nesting", *ty, *entry, &bytes);
+                }
+            }
+        }
+    });
 }
